@@ -595,9 +595,8 @@ fn do_format(src: &str, opts: FormatOptions) -> Fmt {
 fn forced_chain_break(ast: &Ast, threshold: u8) -> bool {
     for n in ast.nodes() {
         if let Node::Chain((ChainNode::Root(_), first_next)) = &n.node {
-            if threshold == 0 {
-                return true;
-            }
+            // (a threshold of 0 disables counting since koto 0f09f59; only the "call without parentheses
+            // in mid-chain" rule can still force a break then)
             let mut count = 0u32;
             let mut last_access = false;
             let mut next = *first_next;
@@ -622,7 +621,7 @@ fn forced_chain_break(ast: &Ast, threshold: u8) -> bool {
                         }
                         _ => last_access = false,
                     }
-                    if count >= threshold as u32 {
+                    if threshold > 0 && count >= threshold as u32 {
                         return true;
                     }
                     next = *nn;
@@ -729,7 +728,8 @@ fn classes(src: &str, ast: &Ast) -> Value {
     }
     let sliced_after_non_ascii = odd_width && has_sliced;
     let (mid, mlroot) = comment_mid_expression(src);
-    json!({"wildcard_import": wildcard, "repr_spec": repr, "sliced_after_non_ascii": sliced_after_non_ascii,
+    let _ = (wildcard, repr);   // C11a / C11b are fixed (koto e32ec60, 06483c8): no class, a recurrence is a violation
+    json!({"sliced_after_non_ascii": sliced_after_non_ascii,
            "comment_mid_expression": mid, "multi_line_chain_root": mlroot})
 }
 
